@@ -103,6 +103,20 @@ class BaseForm(metaclass=UFLType):
     # classes
     __slots__ = ()
     _ufl_is_abstract_ = True
+
+    def __getstate__(self):
+        """Get the state for pickling, without the cached hash.
+
+        Hashes are built from hashes of strings, which differ between
+        processes: a hash cached in one process must not travel to another.
+        """
+        state = object.__getstate__(self)
+        if isinstance(state, tuple) and isinstance(state[1], dict) and state[1].get("_hash") is not None:
+            state = (state[0], {**state[1], "_hash": None})
+        elif isinstance(state, dict) and state.get("_hash") is not None:
+            state = {**state, "_hash": None}
+        return state
+
     _ufl_required_methods_: tuple[str, ...] = (
         "_analyze_form_arguments",
         "_analyze_domains",
